@@ -423,6 +423,22 @@ fn serialise_targets(doc_text: &str, paths: &[Vec<usize>], attr: Option<&str>, t
     String::from_utf8(out).ok()
 }
 
+/// the library's own serialisation of the whole document, as xq prints a selected document node
+fn serialise_document(doc_text: &str, indent: bool) -> Option<String> {
+    let (rest, dom) = xml_dom::XmlDocument::from_raw(doc_text).ok()?;
+    if !rest.is_empty() {
+        return None;
+    }
+    let mut out: Vec<u8> = vec![];
+    if indent {
+        let _ = dom.pretty(&mut out);
+        out.push(b'\n');
+    } else {
+        out.extend_from_slice(format!("{}\n", dom).as_bytes());
+    }
+    String::from_utf8(out).ok()
+}
+
 pub fn gen_case(seed: u64, id: u64) -> Case {
     let mut rng = Rng::new(crate::rng::mix(seed ^ 0xC17, id));
     let budget = rng.range(2, 30);
@@ -551,6 +567,60 @@ pub fn gen_case(seed: u64, id: u64) -> Case {
         }
     }
 
+    // selections that are easy to get wrong at the edges: the document node itself, variables,
+    // axes that leave the tree at the root, the parent of an attribute
+    let mut special_fail = false;
+    let mut doc_target = false;
+    if rng.pct(10) {
+        match rng.below(4) {
+            0 => {
+                expr = "/".into();
+                paths.clear();
+                attr = None;
+                text_runs = false;
+                scalar = None;
+                need_ns = false;
+                doc_target = true;
+                what = "the document node".into();
+            }
+            1 => {
+                expr = rng.ps(&["$x", "$p:x", "count($n)", "$x | /*"]).to_string();
+                need_ns = false;
+                special_fail = true;
+                what = "variable reference".into();
+            }
+            2 => {
+                expr = rng.ps(&["/..", "/parent::node()", "/ancestor::node()", "/preceding-sibling::*", "/following::*"]).to_string();
+                paths.clear();
+                attr = None;
+                text_runs = false;
+                scalar = None;
+                need_ns = false;
+                what = "empty selection from the root".into();
+            }
+            _ => {
+                let name = rng.ps(&["a", "b", "c"]).to_string();
+                let a = rng.ps(ATTRS).to_string();
+                expr = format!("//{}/@{}/..", name, a);
+                paths.clear();
+                let mut all = vec![];
+                named_paths(&root, &name, &mut vec![], &mut all);
+                for p in all {
+                    if let Some(G::El { attrs, .. }) = get(&root, &p) {
+                        if attrs.iter().any(|(k, _)| *k == a) {
+                            paths.push(p);
+                        }
+                    }
+                }
+                attr = None;
+                text_runs = false;
+                scalar = None;
+                need_ns = false;
+                what = "parent of attributes".into();
+            }
+        }
+    }
+
     // unusable input (fault kind "unusable argv")
     let bad = rng.below(100);
     let mut expect_kind = String::new();
@@ -675,6 +745,33 @@ pub fn gen_case(seed: u64, id: u64) -> Case {
                     what = "count() of a number".into();
                 }
             }
+        }
+    } else if special_fail {
+        expect_kind = "fail".into();
+    } else if doc_target && tool == "xq" {
+        match serialise_document(&doc, indent) {
+            Some(s) => {
+                expect_kind = "stdout".into();
+                expect = s;
+            }
+            None => expect_kind = "any".into(),
+        }
+    } else if doc_target {
+        // xe on the document node: its children are replaced by the fragment
+        let els = vkids.iter().filter(|k| matches!(k, G::El { .. })).count();
+        let only_doc_level = vkids.iter().all(|k| matches!(k, G::El { .. } | G::Comment(_) | G::PI(..)));
+        if els == 1 && only_doc_level {
+            let mut c = String::new();
+            canon_kids(&vkids, &mut c);
+            expect_kind = if indent { "canonws".into() } else { "canon".into() };
+            expect = c;
+        } else if !only_doc_level {
+            // text, CDATA or references cannot be children of a document
+            expect_kind = "fail".into();
+            what = "xe: character data as child of the document".into();
+        } else {
+            // no element or several: what is left is not a document; not judged beyond O1/O2
+            expect_kind = "any".into();
         }
     } else if tool == "xq" {
         if let Some(s) = scalar {
